@@ -34,14 +34,15 @@ var (
 
 // ---- fakes -----------------------------------------------------------------
 type scenEnv struct {
-	mu     sync.Mutex
-	obs    []string
-	done   bool
-	paired bool
-	auto   bool
-	allow  bool
-	closed bool
-	left   int // data-writer calls left before the transport turns closed; -1 = never
+	mu          sync.Mutex
+	obs         []string
+	done        bool
+	paired      bool
+	auto        bool
+	allow       bool
+	closed      bool
+	expectClose bool // a safe close of a completed connection was requested while the transport was open
+	left        int  // data-writer calls left before the transport turns closed; -1 = never
 }
 
 func (s *scenEnv) add(o string) {
@@ -512,6 +513,13 @@ func perform(c *ship.ShipConnection, env *scenEnv, e *event) (outcome string) {
 	case "abort":
 		c.AbortPendingHandshake()
 	case "close":
+		if e.safe && c.VerifSnapshot().State == 38 {
+			env.mu.Lock()
+			if !env.closed {
+				env.expectClose = true // the announce was (or will be) written: a 500 ms goroutine closes
+			}
+			env.mu.Unlock()
+		}
 		reason := ""
 		if e.reason {
 			reason = "bye"
@@ -521,6 +529,18 @@ func perform(c *ship.ShipConnection, env *scenEnv, e *event) (outcome string) {
 		c.WriteShipMessageWithPayload([]byte(fmt.Sprintf(`{"datagram":{"n":%d}}`, e.pay)))
 	case "deferred":
 		time.Sleep(1250 * time.Millisecond)
+		// under load a pending goroutine may be late: if the connection rests in abort-done /
+		// remote-abort-done, or a safe close was announced, its close is pending - wait for it
+		st := c.VerifSnapshot().State
+		for i := 0; i < 500 && (st == 15 || st == 16 || env.expectClose); i++ {
+			env.mu.Lock()
+			cl := env.closed
+			env.mu.Unlock()
+			if cl {
+				break
+			}
+			time.Sleep(10 * time.Millisecond)
+		}
 	}
 	return ""
 }
